@@ -165,6 +165,9 @@ def impl(case):
                         peer.send(http_response(599, "ScriptEnd"))
                         continue
                     h = script[k]
+                    if h.get("fault"):
+                        peer.eof()          # the connection is dropped without an answer: a retryable fault, no redirect
+                        continue
                     loc = render_location(state["cur"], h)
                     rh = [("Location", loc)] if loc is not None else []
                     if h["to"] is not None:
@@ -225,8 +228,9 @@ def impl(case):
 
 
 def in_model_domain(case):
-    """the model knows requests with and without a body, not how the body is framed: a body sent chunked is judged by the oracle only"""
-    return not case.get("chunked")
+    """the model knows requests with and without a body, not how the body is framed: a body sent chunked is judged by the oracle only;
+    so are chains in which an attempt fails on the connection before it is answered (retries are C04's subject)"""
+    return not case.get("chunked") and not any(h.get("fault") for h in case["script"])
 
 
 # ---------------------------------------------------------------- oracle
@@ -257,10 +261,31 @@ def budget_of(p):
 CONTENT = {"content-encoding", "content-language", "content-location", "content-type", "content-length", "digest", "last-modified", "transfer-encoding"}
 
 
+def oracle_fault(case, obs):
+    """a chain with connection faults: with redirects disabled nothing but the start URL may be asked for, however often"""
+    log, out = obs
+    un = lambda l: "".join(chr(c) for c in l)
+    budget, raises, disabled = budget_of(policy_in_effect(case))
+    if not case["redirect"] or disabled:
+        other = [un(e[1]) for e in log if un(e[1]) != case["start"][3]]
+        if other:
+            return "redirects are disabled (redirect=False or retries=False) but after a connection fault %s was requested: the target was contacted" % other[0]
+    elif budget is not None:
+        hops = 0
+        for a, b in zip(log, log[1:]):
+            if (a[0], a[1]) != (b[0], b[1]):
+                hops += 1
+        if hops > budget:
+            return "%d redirects followed (connection faults in between), the policy allows %d" % (hops, budget)
+    return None
+
+
 def oracle(case, obs):
     log, out = obs
     if out == [9]:
         return None
+    if any(h.get("fault") for h in case["script"]):
+        return oracle_fault(case, obs)
     script = case["script"]
     n = len(log)
     if n == 0:
@@ -446,6 +471,16 @@ def cases(rng, tier):
                     out.append(dict(c, explicit_none=True))      # retries=None passed explicitly at the request
                 if p[0] in ("none", "int") and place == "kw":
                     out.append(dict(c, chunked=True))             # the body sent chunked: after a 303 nothing of that may remain
+    # an attempt that fails on the connection before it is answered, then a redirect: the retry carries the same redirect settings
+    F = {"fault": "eof", "status": 0, "to": None, "form": "abs"}
+    R = lambda i: {"status": 302, "to": ["http", "a.example", None, "/t%d" % i], "form": "abs"}
+    OK = {"status": 200, "to": None, "form": "abs"}
+    for kind in ("manager", "proxy", "pool"):
+        for red in (False, True):
+            for pol in (["none"], ["retry", {"total": 4, "redirect": 2}], ["retry", {"total": 4, "redirect": 1, "raise_on_redirect": False}], ["int", 3]):
+                for script in ([F, R(1), OK, OK], [F, R(1), R(2), R(3), OK, OK], [R(1), F, R(2), OK, OK]):
+                    out.append({"kind": kind, "redirect": red, "assert_same_host": kind == "pool", "start": ["http", "a.example", None, "/"], "method": "GET",
+                                "body": False, "headers": [["X-Keep", "1"]], "hkind": "dict", "kw": pol, "pool": ["none"], "script": [dict(h) for h in script]})
     return out
 
 
